@@ -242,7 +242,9 @@ class GaussianKDE(DensityEstimator):
         x = linspace(self.lwr_limit, self.upr_limit, N)
         p = self(x)
 
-        mu = simpson(p * x, x=x)
+        # integrate relative to the mode: the first moment of (x - mode) does not
+        # amplify the quadrature error of the normalisation by the offset of the data
+        mu = self.mode + simpson(p * (x - self.mode), x=x)
         dx = x - mu
         I = p * dx**2
         var = simpson(I, x=x)
